@@ -29,11 +29,14 @@ def build(seed):
         op.update(kw)
         ops.append(op)
 
+    nested_pat = None
     if not flat and rnd.random() < 0.4:
         cands = [d for d in sorted(fs.dirs) if d]
         rnd.shuffle(cands)
+        # a nested history may have patterns of its own that the enclosing history does not share
+        nested_pat = rnd.choice(["*.bak", "*.log"]) if rnd.random() < 0.4 and "*.bak" not in pats else None
         for d in cands[: rnd.randint(1, 2)]:
-            create(d)
+            create(d, **({"i": list(pats) + [nested_pat]} if nested_pat else {}))
     create("")
     for _ in range(rnd.choice([0, 0, 1, 2])):
         if rnd.random() < 0.35:
@@ -43,6 +46,8 @@ def build(seed):
     n_seal = len(ops)
     kind = rnd.choice(["none", "alter", "remove", "add", "rename", "mkdir", "rmdir", "root_alter", "root_add", "bitrot", "bitrot"])
     truth = False
+    if nested_pat and rnd.random() < 0.6:
+        kind = "add_outside_nested"
     files = sorted(fs.files)
     rootfiles = [p for p in files if "/" not in p]
     if kind == "alter" and files:
@@ -72,6 +77,11 @@ def build(seed):
         if p not in fs.files:
             ops.append({"op": "write", "path": p, "data": "added"})
             truth = not mutate.hidden(p, pats)
+    elif kind == "add_outside_nested":
+        # a file that only the NESTED history's patterns would hide, added directly in the root folder
+        p = "zz added" + nested_pat[1:]
+        ops.append({"op": "write", "path": p, "data": "added"})
+        truth = not mutate.hidden(p, pats)
     elif kind == "rename" and files:
         p = rnd.choice(files)
         q = p.rsplit("/", 1)[0] + "/renamed_x.dat" if "/" in p else "renamed_x.dat"
